@@ -103,6 +103,12 @@ func ReasonExt(code int) pkix.Extension {
 	return pkix.Extension{Id: asn1.ObjectIdentifier{2, 5, 29, 21}, Value: b}
 }
 
+// CRLNumberBigExt is a cRLNumber of up to 20 octets (RFC 5280 allows that many).
+func CRLNumberBigExt(n *big.Int) pkix.Extension {
+	b, _ := asn1.Marshal(n)
+	return pkix.Extension{Id: asn1.ObjectIdentifier{2, 5, 29, 20}, Value: b}
+}
+
 func InvalidityDateExt(t time.Time) pkix.Extension {
 	b, _ := asn1.MarshalWithParams(t, "generalized")
 	return pkix.Extension{Id: asn1.ObjectIdentifier{2, 5, 29, 24}, Value: b}
